@@ -8,7 +8,7 @@ from ..ref import refdepth
 
 RULE = (
     "valid documents (flat, nested, multi-operation; fragments, inline fragments, merged keys, "
-    "@skip/@include steered by fully supplied variables) are measured by MaxDepthValidationRule for "
+    "@skip/@include steered by variables that are supplied or left to their default; introspection selections) are measured by MaxDepthValidationRule for "
     "every limit in 0..depth+2 and every operation-name filter (each name, an unknown name, none; a "
     "lone operation is left anonymous half of the time), "
     "directly and through validate_ast(validators=[...]); the verdict per operation is compared with "
@@ -88,6 +88,20 @@ def run(ctx):
                 for i, o in enumerate(doc.operations):
                     o.name = "Q" * (i + 1)
                 ctx.count("documents_with_nested_operation_names")
+            # introspection fields nest like any other field
+            queries = [o for o in doc.operations if o.kind == "query"]
+            if queries and rng.random() < 0.3:
+                levels = ["types", "fields", "type", "ofType", "ofType"][:rng.randint(0, 5)]
+                sel = [opgen.OField("name", "__Type")]
+                for lv in reversed(levels):
+                    sel = [opgen.OField("name", "__Type"), opgen.OField(lv, "__Type", None, None, None, sel)]
+                if levels:
+                    sel = sel[1:]        # __schema has no `name`
+                else:
+                    sel = [opgen.OField("queryType", "__Schema", None, None, None, [opgen.OField("name", "__Type")])]
+                o = rng.choice(queries)
+                o.selection.append(opgen.OField("__schema", case.ir.query, rng.choice([None, "meta"]), None, None, sel))
+                ctx.count("operations_with_introspection_selection")
             families = [("base", doc, [])]
             for _ in range(2):
                 d2, kinds = wrap_copy(rng, doc, case.ir)
@@ -110,6 +124,17 @@ def run(ctx):
                         else:
                             variables[name] = None if t[0] != "nonnull" else None
                 ref_vars = dict(variables)
+                # a variable that has a default may be left out of the payload: the default steers the directive
+                defined_in = {}
+                for o in d.operations:
+                    for name, _t, _d in o.variables:
+                        defined_in[name] = defined_in.get(name, 0) + 1
+                for o in d.operations:
+                    for name, t, default in o.variables:
+                        if isinstance(default, bool) and name in variables and defined_in[name] == 1 and rng.random() < 0.3:
+                            del variables[name]
+                            ref_vars[name] = default
+                            ctx.count("boolean_variables_left_to_their_default")
                 witness = {"schema_sdl": case.sdl, "document": text, "variables": variables, "family": fam, "wraps": kinds}
                 for o in d.operations:
                     try:
